@@ -260,6 +260,10 @@ class RefModel:
             elif op == "inject":
                 f = L.F[self.ref(s["func"], "F")]
                 at = s["at"] + (1 if s.get("mode") == "after" else 0)
+                if s.get("mode") == "func_entry":
+                    at = 0
+                elif s.get("mode") == "func_exit":
+                    at = len(f["body"]) - 1      # straight-line body: the only exit is the final end
                 f["body"] = f["body"][:at] + self.toks(s["ops"]) + f["body"][at:]
             else:
                 raise ValueError(op)
@@ -530,6 +534,25 @@ def menu(kind):
         creator("add_imported_global", lambda k, c: {"op": "add_imported_global", "name": "nig%d" % k}, "G")
         creator("delete_memory(unreferenced base import)", lambda k, c: {"op": "delete_memory", "id": B(0)}, None)
         creator("set_fn_name(earlier)", lambda k, c: {"op": "set_fn_name", "id": R(c["F"][-1]), "name": "named_new_%d" % k} if c["F"] else None, None)
+    if kind in ("SE",):
+        # C23: every step carries its own tag (assigned in make_cases); additions of every kind + probes
+        creator("add_imported_global", lambda k, c: {"op": "add_imported_global", "name": "nig%d" % k}, "G")
+        creator("add_global(const)", lambda k, c: {"op": "add_global", "init": [["i32.const", 700 + k]]}, "G")
+        creator("add_global(global.get earlier)", lambda k, c: {"op": "add_global", "init": [G(R(c["Gimp"][-1]))]} if c["Gimp"] else None, "G")
+        creator("add_import_func", lambda k, c: {"op": "add_import_func", "name": "nif%d" % k}, "F")
+        creator("add_local_func(call base local, named)", lambda k, c: {"op": "add_local_func", "name": "built_%d" % k, "locals": ["i64"], "body": [["call", B(2)], ["global.get", B(3)], ["i32.add"]]}, "F")
+        creator("add_local_func(call earlier)", lambda k, c: {"op": "add_local_func", "body": [["call", R(c["F0"][-1])], ["i32.const", 950 + k], ["i32.add"]]} if c["F0"] else None, "F")
+        creator("add_import_memory", lambda k, c: {"op": "add_import_memory", "name": "nim%d" % k, "min": 10 + k}, "M")
+        creator("add_local_memory", lambda k, c: {"op": "add_local_memory", "min": 20 + k}, "M")
+        creator("add_data(base local memory, offset global.get base import)", lambda k, c: {"op": "add_data", "mem": B(2), "offset": [G(B(1))], "bytes": [7, k]}, None)
+        creator("add_data(earlier memory)", lambda k, c: {"op": "add_data", "mem": R(c["M"][-1]), "offset": [["i32.const", 60 + k]], "bytes": [6, k]} if c["M"] else None, None)
+        creator("probe after(global.get earlier)", lambda k, c: {"op": "inject", "func": B(4), "at": 0, "mode": "after", "ops": [G(R(c["G"][-1])), ["i32.add"]]} if c["G"] else None, None)
+        creator("probe before(call base import, load base memory)", lambda k, c: {"op": "inject", "func": B(2), "at": 0, "mode": "before", "ops": [["call", B(1)], ["drop"], ["i32.const", 4], ["i32.load", B(2)], ["drop"]]}, None)
+        creator("probe after(call earlier)", lambda k, c: {"op": "inject", "func": B(4), "at": 0, "mode": "after", "ops": [["call", R(c["F0"][-1])], ["i32.add"]]} if c["F0"] else None, None)
+        creator("function-entry probe(global.get base local)", lambda k, c: {"op": "inject", "func": B(3), "at": 0, "mode": "func_entry", "ops": [G(B(6)), ["drop"]]}, None)
+        creator("delete_global(unreferenced base import)", lambda k, c: {"op": "delete_global", "id": B(0)}, None)
+        creator("delete_func(unreferenced base import)", lambda k, c: {"op": "delete_func", "id": B(0)}, None)
+        creator("delete_memory(unreferenced base import)", lambda k, c: {"op": "delete_memory", "id": B(0)}, None)
     if kind in ("N",):
         creator("add_imported_global", lambda k, c: {"op": "add_imported_global", "name": "nig%d" % k}, "G")
         creator("add_global(const)", lambda k, c: {"op": "add_global", "init": [["i32.const", 700 + k]]}, "G")
@@ -610,7 +633,7 @@ def histories(kind, maxlen, observe_modes=(True, False)):
     return out
 
 
-FAMILY = {"C05": "DEL", "C06": "F", "C07": "G", "C08": "M", "C09": "DEL", "C30": "ADD", "C10": "F10", "C11": "F11", "C29": "N", "C12": "B12"}
+FAMILY = {"C05": "DEL", "C06": "F", "C07": "G", "C08": "M", "C09": "DEL", "C30": "ADD", "C10": "F10", "C11": "F11", "C29": "N", "C12": "B12", "C23": "SE"}
 
 
 def make_cases(pid, tier, seed):
@@ -634,6 +657,22 @@ def make_cases(pid, tier, seed):
                       **({"encode_twice": True, "only_second": True} if pid == "C05" else {}),
                       **({"judge_names": True} if pid == "C29" else {}),
                       **({"judge_builder": True} if pid == "C12" else {})})
+    if pid == "C23":
+        def same_list_twice(c):
+            seen = set()
+            for st in c["hist"]:
+                if st["op"] == "inject":
+                    key = (json.dumps(st["func"]), st["at"], st.get("mode"))
+                    if key in seen:
+                        return True      # two injections into one list are reported as one record with both tags: not generated
+                    seen.add(key)
+            return False
+        cases = [c for c in cases if not same_list_twice(c)]
+        for c in cases:
+            c["side_effects"] = True
+            for k, st in enumerate(c["hist"]):
+                if st["op"] not in ("delete_global", "delete_func", "delete_memory", "delete_export", "mod_global_init", "set_fn_name"):
+                    st["tag"] = [200, k]          # a tag of its own for every addition / probe
     return cases
 
 
@@ -701,7 +740,123 @@ def judge(case, r):
                          {"observable": k, "env": env, "impl": Ci[k], "spec": Cs[k]}))
     elif res != z3.unsat:
         raise Unsupported("z3: %s" % res)
+    if case.get("side_effects"):
+        viol = [v for v in viol if False] + judge_side_effects(case, r, rm, spec, impl)   # C23 judges the report only
     return viol, st
+
+
+SE_KIND = {"add_imported_global": ("import", "global"), "add_import_func": ("import", "func"), "add_import_memory": ("import", "memory"),
+           "add_global": ("global", None), "add_local_func": ("func", None), "add_local_memory": ("memory", None), "add_data": ("data", None),
+           "add_export_func": ("export", "func"), "add_export_mem": ("export", "memory"), "inject": ("probe", None)}
+
+
+def judge_side_effects(case, r, rm, spec, impl):
+    """C23: the report of pull_side_effects (taken from a second instance that went through the same history) lists
+    exactly the tagged additions and probes, each with its tag and content; code in the probe records designates, in the ENCODED module's index space and for all host values,
+    the entities the history used.  Only PROBE bodies are judged for their index space (that is what the property
+    pins); initialisers / offsets / bodies of added globals, data segments and functions are compared by opcode
+    sequence only, and IDs stored in the records (id / index / fid / memory_index) are not judged."""
+    se = r.get("side_effects")
+    if se is None:
+        return [("report-missing", "no side-effect report was returned", {})]
+    viol = []
+    recs = []
+    for k, lst in se.items():
+        for x in lst:
+            recs.append((k, x))
+    by_tag = {}
+    for k, x in recs:
+        by_tag.setdefault(tuple(x["tag"]), []).append((k, x))
+    zi, zs = Sem(impl, Z3Dom()), Sem(spec, Z3Dom())
+    pairs = []      # (name, impl term, spec term)
+    expected_tags = set()
+    for n, st in enumerate(case["hist"]):
+        if "tag" not in st:
+            continue
+        tag = tuple(st["tag"])
+        expected_tags.add(tag)
+        kind, sub = SE_KIND[st["op"]]
+        got = by_tag.get(tag, [])
+        want_type = {"import": "import", "global": "global", "func": "func", "memory": "memory", "data": "data", "export": "export", "probe": "probe"}[kind]
+        mine = [(k, x) for k, x in got if k == want_type]
+        if len(mine) != 1:
+            viol.append(("report-" + kind, "step %d (%s, tag %s): %d records of type %s carry its tag, exactly one is prescribed" % (n, st["op"], list(tag), len(mine), want_type), {}))
+            continue
+        x = mine[0][1]
+        lab = rm.results[n]
+        def bad(what):
+            viol.append(("report-" + kind + "-content", "step %d (%s): %s" % (n, st["op"], what), {"record": x}))
+        if kind == "import":
+            if (x.get("module"), x.get("name"), x.get("kind")) != ("env", st["name"], sub):
+                bad("import record is %r" % ((x.get("module"), x.get("name"), x.get("kind")),))
+        elif kind == "export":
+            if (x.get("name"), x.get("kind")) != (st["name"], sub):
+                bad("export record is %r" % ((x.get("name"), x.get("kind")),))
+        elif kind == "memory":
+            if x.get("min") != st["min"]:
+                bad("memory record has initial size %r, requested %r" % (x.get("min"), st["min"]))
+        elif kind == "global":
+            if x.get("ty") != ["i32"] or bool(x.get("mut")) != bool(st.get("mut", False)):
+                bad("global record has type %r mutable=%r" % (x.get("ty"), x.get("mut")))
+            if [t[0] for t in x["init"]] != [t[0] for t in st["init"]]:
+                bad("global record has initialiser %r" % (x["init"],))
+        elif kind == "func":
+            if x.get("fname") != st.get("name") or x.get("params") != st.get("params", []) or x.get("results") != ["i32"] or x.get("locals") != st.get("locals", []):
+                bad("function record has name %r signature %r -> %r locals %r" % (x.get("fname"), x.get("params"), x.get("results"), x.get("locals")))
+            if [t[0] for t in x["body"]] != [t[0] for t in st["body"]] + ["end"]:
+                bad("function record body is %r" % ([t[0] for t in x["body"]],))
+        elif kind == "data":
+            if x.get("v") != "active_data" or x.get("bytes") != st["bytes"]:
+                bad("data record is %r with bytes %r" % (x.get("v"), x.get("bytes")))
+            elif [t[0] for t in x["offset"]] != [t[0] for t in st["offset"]]:
+                bad("data record has offset %r" % (x["offset"],))
+        elif kind == "probe":
+            want_ops = rm.toks(st["ops"])
+            fl = st.get("mode") in ("func_entry", "func_exit")
+            want_v, want_mode = ("func_probe", st["mode"][5:]) if fl else ("loc_probe", st.get("mode", "before"))
+            if x.get("v") != want_v or x.get("mode") != want_mode or [t[0] for t in x["body"]] != [t[0] for t in want_ops]:
+                bad("probe record is %r mode %r body %r" % (x.get("v"), x.get("mode"), [t[0] for t in x.get("body", [])]))
+            else:
+                for j, (ti, ts) in enumerate(zip(x["body"], want_ops)):
+                    k = REFKIND.get(ts[0])
+                    try:
+                        if k == "G":
+                            pairs.append(("report-probe-body:step%d.%d" % (n, j), zi.gval(ti[1]), zs.gval(ts[1])))
+                        elif k == "F":
+                            pairs.append(("report-probe-body:step%d.%d" % (n, j), zi.fval(ti[1]), zs.fval(ts[1])))
+                        elif k == "M":
+                            if zi.mem_ident(ti[1]) != zs.mem_ident(ts[1]):
+                                bad("probe body instruction %d designates memory %s in the encoded module, the history used %s" % (j, zi.mem_ident(ti[1]), zs.mem_ident(ts[1])))
+                        elif ti[1:] != ts[1:]:
+                            bad("probe body instruction %d is %r, injected %r" % (j, ti, ts))
+                    except Unsupported as e:
+                        bad("probe body instruction %d cannot be resolved in the encoded module: %s" % (j, e))
+    # nothing else may be reported (types and locals are not judged: the API adds them implicitly)
+    for k, x in recs:
+        if k in ("type", "local"):
+            continue
+        if k == "probe" and not x["tag"]:
+            # a function-level / special-mode probe is reported once with its tag AND once more, untagged, in its
+            # lowered form (before/after code): whether that copy counts is not settled by the statement - not judged
+            continue
+        if tuple(x["tag"]) not in expected_tags:
+            viol.append(("report-extra", "a %s record with tag %s does not belong to any tagged addition or probe of the history (an item of the parsed module, or an untagged one)" % (k, x["tag"]), {"record": x}))
+    if pairs:
+        s = z3.Solver()
+        s.set("timeout", 60000)
+        s.add(z3.Or([a != b for _, a, b in pairs]))
+        res = s.check()
+        if res == z3.sat:
+            m = s.model()
+            ci, cs = Sem(impl, IntDom(m)), Sem(spec, IntDom(m))
+            env = {str(d): m[d].as_long() for d in m.decls() if z3.is_bv(m[d])}
+            for name, a, b in pairs:
+                va, vb = m.eval(a, model_completion=True).as_long(), m.eval(b, model_completion=True).as_long()
+                if va != vb:
+                    viol.append((name.split(":")[0], "%s: under host values %s the code in the record yields %d in the encoded module's index space, the entity the history used yields %d" % (name, env, va, vb), {"env": env}))
+        elif res != z3.unsat:
+            raise Unsupported("z3 (side effects): %s" % res)
+    return viol
 
 
 def role_of(case):
